@@ -74,13 +74,31 @@ def run(ctx):
         groups.append(("n", 1, [nm]))
     inp = b"".join(("%s %d " % (m, nin)).encode() + b" ".join(x.hex().encode() for x in g) + b"\n"
                    for m, nin, g in groups)
-    rc, out, err, to = util.run([b, "shellesc", tool], input=inp, timeout=1200)
-    if to:
-        raise core.Inconclusive("shellesc probe timed out")
-    if rc != 0:
-        ctx.violation("C16/sanitizer/" + (util.san_signature(err.decode("latin-1")) or "crash rc=%d" % rc),
-                      err.decode("latin-1")[-2500:])
-        return
+    lines = inp.split(b"\n")[:-1]
+    CH = 1500
+    chunks = [lines[i:i + CH] for i in range(0, len(lines), CH)]
+
+    def probe_chunk(ch):
+        data = b"\n".join(ch) + b"\n"
+        for attempt in range(2):
+            rc, out, err, to = util.run([b, "shellesc", tool], input=data, timeout=90)
+            if not to:
+                return rc, out, err, False
+        return rc, out, err, True
+    with ThreadPoolExecutor(max_workers=util.NCPU) as ex:
+        pres = list(ex.map(probe_chunk, chunks))
+    out = b""
+    for ci, (rc, o, err, to) in enumerate(pres):
+        if to:
+            # the probe is a few milliseconds per group: two timeouts in a row on the same chunk is a hang in the escaping code
+            ctx.violation("C16/escaping-hangs", "Edge::EvaluateCommand did not return within 90 s (twice) for a chunk starting with %r" %
+                          chunks[ci][0][:200], {"chunk_first": chunks[ci][0].decode()})
+            return
+        if rc != 0:
+            ctx.violation("C16/sanitizer/" + (util.san_signature(err.decode("latin-1")) or "crash rc=%d" % rc),
+                          err.decode("latin-1")[-2500:])
+            return
+        out += o
     cmds = [bytes.fromhex(l) if not l.startswith("ERR") else None for l in out.decode().splitlines()]
     if len(cmds) != len(groups):
         raise core.Inconclusive("probe produced %d lines for %d groups" % (len(cmds), len(groups)))
